@@ -36,6 +36,7 @@ type faultWriter struct {
 	err      error
 	limit    int
 	short    bool
+	full     bool // the failing call reports the complete count together with the error
 	accepted int
 	failed   int
 }
@@ -46,6 +47,11 @@ func (w *faultWriter) Write(p []byte) (int, error) {
 		return len(p), nil
 	}
 	w.failed++
+	if w.full && w.failed == 1 {
+		// the destination took the bytes and then failed (a framing writer whose trailer could not be written)
+		w.accepted += len(p)
+		return len(p), w.fault()
+	}
 	if w.short && w.failed == 1 {
 		n := w.limit - w.accepted
 		if n < 0 {
@@ -114,7 +120,7 @@ func init() {
 			"faults placed after the last byte the reader consumes are not counted (the library never sees them)",
 			"WriteFile faults are injected by the kernel through RLIMIT_FSIZE with SIGXFSZ ignored (write returns EFBIG after a short write up to the limit)",
 		},
-		Require: []string{"write_faults_injected", "write_faults_short", "write_faults_after_header", "read_faults_returned", "read_faults_with_data", "writefile_faults", "unfaulted_writes", "read_faults_big_payload"},
+		Require: []string{"write_faults_full_count", "write_faults_injected", "write_faults_short", "write_faults_after_header", "read_faults_returned", "read_faults_with_data", "writefile_faults", "unfaulted_writes", "read_faults_big_payload"},
 		Run:     runC10,
 	})
 }
@@ -142,11 +148,15 @@ func runC10(c *mon.Ctx) {
 		in := map[string]any{"history": a.desc, "size": len(b)}
 		// ---- destination faults
 		for _, k := range offsets {
-			for _, short := range []bool{false, true} {
-				w := &faultWriter{limit: k, short: short, err: faultKinds[(k+int(i))%len(faultKinds)]}
+			for mode := 0; mode < 3; mode++ {
+				short := mode == 1
+				w := &faultWriter{limit: k, short: short, full: mode == 2, err: faultKinds[(k+int(i))%len(faultKinds)]}
 				var n int64
 				var err error
-				in["fault_offset"], in["short_write"], in["error_kind"] = k, short, fmt.Sprintf("%T", w.err)
+				in["fault_offset"], in["short_write"], in["full_count_with_error"], in["error_kind"] = k, short, mode == 2, fmt.Sprintf("%T", w.err)
+				if mode == 2 {
+					c.Count("write_faults_full_count", 1)
+				}
 				c.SetAdd("write_error_kinds", fmt.Sprintf("%T", w.err))
 				if c.Guard("panic:WriteTo", in, func() { n, err = a.s.WriteTo(w) }) {
 					continue
@@ -164,9 +174,9 @@ func runC10(c *mon.Ctx) {
 					c.Count("write_faults_after_header", 1)
 				}
 				if err == nil {
-					c.Violation("write-fault-swallowed", fmt.Sprintf("destination failed at byte offset %d of %d (short=%v, accepted %d bytes) but WriteTo returned nil (size %d)", k, len(b), short, w.accepted, n), in, "error", fmt.Sprintf("nil, size %d", n))
+					c.Violation("write-fault-swallowed", fmt.Sprintf("destination failed at byte offset %d of %d (short=%v, complete count with the error=%v, accepted %d bytes) but WriteTo returned nil (size %d)", k, len(b), short, mode == 2, w.accepted, n), in, "error", fmt.Sprintf("nil, size %d", n))
 				}
-				c.DistinctBytes([]byte(fmt.Sprint(i, k, short)))
+				c.DistinctBytes([]byte(fmt.Sprint(i, k, mode)))
 			}
 		}
 		// no fault: nil and exact size
